@@ -2,6 +2,7 @@
 // loop-tick hook armed so that a call whose data-dependent loops exceed the cap is aborted and reported.
 #define XV_TICKED 1
 #include "xv_harness.hpp"
+#include <limits>
 
 namespace xv
 {
@@ -46,6 +47,25 @@ namespace xv
     XV_OP2(m_fdim, xs::fdim(a, b))
     XV_OP2(m_fmin, xs::fmin(a, b))
     XV_OP2(m_fmax, xs::fmax(a, b))
+    // pow with an integer exponent (C14: the square-and-multiply loop must end for every exponent of every integer
+    // type). The second operand carries an index into the exponent table of that type; one call serves one batch, so
+    // the exponent is the one named by lane 0.
+    template <class I>
+    inline I ipow_exponent(int k)
+    {
+        using L = std::numeric_limits<I>;
+        static const I tab[40] = { (I)0, (I)1, (I)-1, (I)2, (I)-2, (I)3, (I)-3, (I)4, (I)5, (I)7, (I)8, (I)15, (I)16, (I)17, (I)31, (I)32, (I)33, (I)63, (I)64, (I)65,
+                                   (I)100, (I)-100, (I)127, (I)128, (I)255, (I)256, (I)1000, (I)-1000, (I)32767, (I)-32768, L::max(), L::min(), (I)(L::max() - 1), (I)(L::min() + 1),
+                                   (I)(L::min() / 2), (I)(L::max() / 2), (I)(L::max() / 2 + 1), (I)(L::min() / 2 - 1), (I)-7, (I)-64 };
+        return tab[(k < 0 || k >= 40) ? 0 : k];
+    }
+#define XV_IPOW(NAME, I) XV_OP2(m_ipow_##NAME, xs::pow(a, ipow_exponent<I>((int)b.get(0))))
+    XV_IPOW(i16, int16_t)
+    XV_IPOW(i32, int32_t)
+    XV_IPOW(i64, int64_t)
+    XV_IPOW(u16, uint16_t)
+    XV_IPOW(u32, uint32_t)
+    XV_IPOW(u64, uint64_t)
     struct m_sincos
     {
         template <class T, class X>
@@ -153,6 +173,12 @@ namespace xv
         reg<m_fmin, T, X, X, X>("M", "fmin");
         reg<m_fmax, T, X, X, X>("M", "fmax");
         reg<m_sincos, T, std::pair<X, X>, X>("M", "sincos");
+        reg<m_ipow_i16, T, X, X, X>("M", "ipow.i16");
+        reg<m_ipow_i32, T, X, X, X>("M", "ipow.i32");
+        reg<m_ipow_i64, T, X, X, X>("M", "ipow.i64");
+        reg<m_ipow_u16, T, X, X, X>("M", "ipow.u16");
+        reg<m_ipow_u32, T, X, X, X>("M", "ipow.u32");
+        reg<m_ipow_u64, T, X, X, X>("M", "ipow.u64");
 #define XV_RS(NAME) reg_scalar<T>(#NAME, &s_run_##NAME<T>);
         XV_RS(exp)
         XV_RS(exp2)
